@@ -20,7 +20,6 @@ use std::cmp::Ordering;
 use std::fmt::{self, Debug, Display};
 use std::marker::PhantomData;
 use std::ops::{Bound, RangeBounds};
-use std::sync::Arc;
 
 mod complex_types;
 mod tuple_types;
@@ -33,8 +32,8 @@ pub type Result<T = (), E = StorageError> = std::result::Result<T, E>;
 /// max serialised key / value length, rows per table, tables per database
 pub const KMAX: usize = 72;
 pub const VMAX: usize = 184;
-pub const CAP: usize = 5;
-pub const NTABLES: usize = 9;
+pub const CAP: usize = 4;
+pub const NTABLES: usize = 8;
 
 // ------------------------------------------------------------------------------------------
 // errors (slim: no io::Error payloads)
@@ -154,13 +153,15 @@ impl Row {
 /// One table: rows `[0, n)` are valid and sorted (by key; multimap: by key, then value).
 #[derive(Clone, Copy)]
 pub struct TableData {
+    /// FNV-1a of the table name (0 = unused slot); lookups compare integers, not strings
+    id: u64,
     name: Option<&'static str>,
     multimap: bool,
     n: usize,
     rows: [Row; CAP],
 }
 
-const EMPTY_TABLE: TableData = TableData { name: None, multimap: false, n: 0, rows: [EMPTY_ROW; CAP] };
+const EMPTY_TABLE: TableData = TableData { id: 0, name: None, multimap: false, n: 0, rows: [EMPTY_ROW; CAP] };
 
 impl TableData {
     fn remove_at(&mut self, i: usize) -> Row {
@@ -195,21 +196,36 @@ pub struct State {
 
 const EMPTY_STATE: State = State { tables: [EMPTY_TABLE; NTABLES] };
 
+/// FNV-1a (const): identifies a table by name without string comparisons at run time
+pub const fn name_id(name: &str) -> u64 {
+    let b = name.as_bytes();
+    let mut h: u64 = 0xcbf29ce484222325;
+    let mut i = 0;
+    while i < b.len() {
+        h ^= b[i] as u64;
+        h = h.wrapping_mul(0x100000001b3);
+        i += 1;
+    }
+    if h == 0 {
+        1
+    } else {
+        h
+    }
+}
+
 impl State {
-    fn find(&self, name: &str) -> Option<usize> {
+    fn find(&self, id: u64) -> Option<usize> {
         let mut i = 0;
         while i < NTABLES {
-            if let Some(n) = self.tables[i].name {
-                if n == name {
-                    return Some(i);
-                }
+            if self.tables[i].id == id {
+                return Some(i);
             }
             i += 1;
         }
         None
     }
-    fn find_or_create(&mut self, name: &'static str, multimap: bool) -> std::result::Result<usize, TableError> {
-        if let Some(i) = self.find(name) {
+    fn find_or_create(&mut self, id: u64, name: &'static str, multimap: bool) -> std::result::Result<usize, TableError> {
+        if let Some(i) = self.find(id) {
             if self.tables[i].multimap != multimap {
                 return Err(if multimap { TableError::TableIsNotMultimap } else { TableError::TableIsMultimap });
             }
@@ -217,8 +233,9 @@ impl State {
         }
         let mut i = 0;
         while i < NTABLES {
-            if self.tables[i].name.is_none() {
+            if self.tables[i].id == 0 {
                 self.tables[i] = EMPTY_TABLE;
+                self.tables[i].id = id;
                 self.tables[i].name = Some(name);
                 self.tables[i].multimap = multimap;
                 return Ok(i);
@@ -226,6 +243,47 @@ impl State {
             i += 1;
         }
         Err(TableError::Storage(StorageError::ModelCapacity))
+    }
+}
+
+/// All database states live in a static arena (typed static objects are what CBMC handles best:
+/// heap allocations are untyped byte arrays, and an 8 KB state behind `Arc`/`self_cell` makes every
+/// field access a byte-extract over the whole allocation).  Slots are handed out by a bump
+/// counter and never reused; running out of slots is `StorageError::ModelCapacity`.
+pub const NSLOTS: usize = 16;
+static mut ARENA: [State; NSLOTS] = [EMPTY_STATE; NSLOTS];
+static mut OPEN: [[bool; NTABLES]; NSLOTS] = [[false; NTABLES]; NSLOTS];
+static mut NEXT_SLOT: usize = 0;
+
+#[allow(static_mut_refs)]
+fn alloc_slot() -> Result<usize> {
+    unsafe {
+        if NEXT_SLOT >= NSLOTS {
+            return Err(StorageError::ModelCapacity);
+        }
+        let s = NEXT_SLOT;
+        NEXT_SLOT += 1;
+        ARENA[s] = EMPTY_STATE;
+        OPEN[s] = [false; NTABLES];
+        Ok(s)
+    }
+}
+
+#[allow(static_mut_refs)]
+fn st(slot: usize) -> &'static mut State {
+    unsafe { &mut ARENA[slot] }
+}
+
+#[allow(static_mut_refs)]
+fn open_flags(slot: usize) -> &'static mut [bool; NTABLES] {
+    unsafe { &mut OPEN[slot] }
+}
+
+/// MODEL ONLY: forget all databases (start of a harness / of a native differential run).
+#[allow(static_mut_refs)]
+pub fn verif_reset_arena() {
+    unsafe {
+        NEXT_SLOT = 0;
     }
 }
 
@@ -252,13 +310,14 @@ pub trait MultimapTableHandle {
 }
 
 pub struct TableDefinition<'a, K: Key + 'static, V: Value + 'static> {
+    id: u64,
     name: &'a str,
     _p: PhantomData<(K, V)>,
 }
 impl<'a, K: Key + 'static, V: Value + 'static> TableDefinition<'a, K, V> {
     pub const fn new(name: &'a str) -> Self {
         assert!(!name.is_empty());
-        Self { name, _p: PhantomData }
+        Self { id: name_id(name), name, _p: PhantomData }
     }
 }
 impl<K: Key + 'static, V: Value + 'static> TableHandle for TableDefinition<'_, K, V> {
@@ -279,13 +338,14 @@ impl<K: Key + 'static, V: Value + 'static> Display for TableDefinition<'_, K, V>
 }
 
 pub struct MultimapTableDefinition<'a, K: Key + 'static, V: Key + 'static> {
+    id: u64,
     name: &'a str,
     _p: PhantomData<(K, V)>,
 }
 impl<'a, K: Key + 'static, V: Key + 'static> MultimapTableDefinition<'a, K, V> {
     pub const fn new(name: &'a str) -> Self {
         assert!(!name.is_empty());
-        Self { name, _p: PhantomData }
+        Self { id: name_id(name), name, _p: PhantomData }
     }
 }
 impl<K: Key + 'static, V: Key + 'static> MultimapTableHandle for MultimapTableDefinition<'_, K, V> {
@@ -334,12 +394,8 @@ pub mod backends {
 
 pub trait StorageBackend: 'static + Debug + Send + Sync {}
 
-struct DbInner {
-    committed: Shared<State>,
-}
-
 pub struct Database {
-    inner: Arc<DbInner>,
+    committed: usize,
 }
 impl Debug for Database {
     fn fmt(&self, f: &mut fmt::Formatter<'_>) -> fmt::Result {
@@ -353,7 +409,7 @@ impl Builder {
         Builder
     }
     pub fn create_with_backend(&self, _backend: impl StorageBackend) -> std::result::Result<Database, DatabaseError> {
-        Ok(Database { inner: Arc::new(DbInner { committed: Shared(UnsafeCell::new(EMPTY_STATE)) }) })
+        Ok(Database { committed: alloc_slot()? })
     }
 }
 
@@ -366,21 +422,23 @@ impl Database {
         Builder
     }
     pub fn begin_write(&self) -> std::result::Result<WriteTransaction, TransactionError> {
-        Ok(WriteTransaction {
-            db: self.inner.clone(),
-            state: Shared(UnsafeCell::new(*self.inner.committed.get())),
-            open: Shared(UnsafeCell::new([false; NTABLES])),
-        })
+        let slot = alloc_slot()?;
+        *st(slot) = *st(self.committed);
+        Ok(WriteTransaction { db: self.committed, slot })
     }
     /// MODEL ONLY: "kill the process and reopen the file" = a new database holding the last
     /// committed state (redb's crash recovery is trusted, cf. property C06).
     pub fn verif_crash_image(&self) -> Database {
-        Database { inner: Arc::new(DbInner { committed: Shared(UnsafeCell::new(*self.inner.committed.get())) }) }
+        let slot = alloc_slot().expect("model capacity");
+        *st(slot) = *st(self.committed);
+        Database { committed: slot }
     }
 }
 impl ReadableDatabase for Database {
     fn begin_read(&self) -> std::result::Result<ReadTransaction, TransactionError> {
-        Ok(ReadTransaction { snap: Arc::new(Shared(UnsafeCell::new(*self.inner.committed.get()))) })
+        let slot = alloc_slot()?;
+        *st(slot) = *st(self.committed);
+        Ok(ReadTransaction { slot })
     }
 }
 
@@ -389,9 +447,8 @@ impl ReadableDatabase for Database {
 // ------------------------------------------------------------------------------------------
 
 pub struct WriteTransaction {
-    db: Arc<DbInner>,
-    state: Shared<State>,
-    open: Shared<[bool; NTABLES]>,
+    db: usize,
+    slot: usize,
 }
 
 impl WriteTransaction {
@@ -401,31 +458,31 @@ impl WriteTransaction {
     ) -> std::result::Result<Table<'txn, K, V>, TableError> {
         // names of table definitions are 'static in every caller; keep them as such
         let name: &'static str = unsafe { std::mem::transmute::<&str, &'static str>(definition.name) };
-        let idx = self.state.get().find_or_create(name, false)?;
-        if self.open.get()[idx] {
+        let idx = st(self.slot).find_or_create(definition.id, name, false)?;
+        if open_flags(self.slot)[idx] {
             return Err(TableError::TableAlreadyOpen);
         }
-        self.open.get()[idx] = true;
-        Ok(Table { txn: self, idx, _p: PhantomData })
+        open_flags(self.slot)[idx] = true;
+        Ok(Table { slot: self.slot, idx, _p: PhantomData })
     }
     pub fn open_multimap_table<'txn, K: Key + 'static, V: Key + 'static>(
         &'txn self,
         definition: MultimapTableDefinition<K, V>,
     ) -> std::result::Result<MultimapTable<'txn, K, V>, TableError> {
         let name: &'static str = unsafe { std::mem::transmute::<&str, &'static str>(definition.name) };
-        let idx = self.state.get().find_or_create(name, true)?;
-        if self.open.get()[idx] {
+        let idx = st(self.slot).find_or_create(definition.id, name, true)?;
+        if open_flags(self.slot)[idx] {
             return Err(TableError::TableAlreadyOpen);
         }
-        self.open.get()[idx] = true;
-        Ok(MultimapTable { txn: self, idx, _p: PhantomData })
+        open_flags(self.slot)[idx] = true;
+        Ok(MultimapTable { slot: self.slot, idx, _p: PhantomData })
     }
     pub fn delete_table(&self, definition: impl TableHandle) -> std::result::Result<bool, TableError> {
-        let st = self.state.get();
-        match st.find(definition.name()) {
+        let st = st(self.slot);
+        match st.find(name_id(definition.name())) {
             None => Ok(false),
             Some(i) => {
-                if self.open.get()[i] {
+                if open_flags(self.slot)[i] {
                     return Err(TableError::TableAlreadyOpen);
                 }
                 if st.tables[i].multimap {
@@ -437,15 +494,13 @@ impl WriteTransaction {
         }
     }
     pub fn list_tables(&self) -> Result<impl Iterator<Item = UntypedTableHandle> + '_> {
-        let st = self.state.get();
-        Ok(st.tables.iter().filter(|t| !t.multimap).filter_map(|t| t.name).map(|name| UntypedTableHandle { name }))
+        Ok(TableNames { st: st(self.slot), i: 0, multimap: false }.map(|name| UntypedTableHandle { name }))
     }
     pub fn list_multimap_tables(&self) -> Result<impl Iterator<Item = UntypedMultimapTableHandle> + '_> {
-        let st = self.state.get();
-        Ok(st.tables.iter().filter(|t| t.multimap).filter_map(|t| t.name).map(|name| UntypedMultimapTableHandle { name }))
+        Ok(TableNames { st: st(self.slot), i: 0, multimap: true }.map(|name| UntypedMultimapTableHandle { name }))
     }
     pub fn commit(self) -> std::result::Result<(), CommitError> {
-        *self.db.committed.get() = *self.state.get();
+        *st(self.db) = *st(self.slot);
         Ok(())
     }
     pub fn abort(self) -> Result {
@@ -453,8 +508,29 @@ impl WriteTransaction {
     }
 }
 
+struct TableNames<'a> {
+    st: &'a State,
+    i: usize,
+    multimap: bool,
+}
+impl Iterator for TableNames<'_> {
+    type Item = &'static str;
+    fn next(&mut self) -> Option<&'static str> {
+        while self.i < NTABLES {
+            let t = &self.st.tables[self.i];
+            self.i += 1;
+            if t.multimap == self.multimap {
+                if let Some(n) = t.name {
+                    return Some(n);
+                }
+            }
+        }
+        None
+    }
+}
+
 pub struct ReadTransaction {
-    snap: Arc<Shared<State>>,
+    slot: usize,
 }
 
 impl ReadTransaction {
@@ -462,13 +538,13 @@ impl ReadTransaction {
         &self,
         definition: TableDefinition<K, V>,
     ) -> std::result::Result<ReadOnlyTable<K, V>, TableError> {
-        match self.snap.get().find(definition.name) {
+        match st(self.slot).find(definition.id) {
             None => Err(TableError::TableDoesNotExist),
             Some(idx) => {
-                if self.snap.get().tables[idx].multimap {
+                if st(self.slot).tables[idx].multimap {
                     return Err(TableError::TableIsMultimap);
                 }
-                Ok(ReadOnlyTable { snap: self.snap.clone(), idx, _p: PhantomData })
+                Ok(ReadOnlyTable { slot: self.slot, idx, _p: PhantomData })
             }
         }
     }
@@ -476,13 +552,13 @@ impl ReadTransaction {
         &self,
         definition: MultimapTableDefinition<K, V>,
     ) -> std::result::Result<ReadOnlyMultimapTable<K, V>, TableError> {
-        match self.snap.get().find(definition.name) {
+        match st(self.slot).find(definition.id) {
             None => Err(TableError::TableDoesNotExist),
             Some(idx) => {
-                if !self.snap.get().tables[idx].multimap {
+                if !st(self.slot).tables[idx].multimap {
                     return Err(TableError::TableIsNotMultimap);
                 }
-                Ok(ReadOnlyMultimapTable { snap: self.snap.clone(), idx, _p: PhantomData })
+                Ok(ReadOnlyMultimapTable { slot: self.slot, idx, _p: PhantomData })
             }
         }
     }
@@ -671,9 +747,9 @@ pub trait ReadableTable<K: Key + 'static, V: Value + 'static>: ReadableTableMeta
 }
 
 pub struct Table<'txn, K: Key + 'static, V: Value + 'static> {
-    txn: &'txn WriteTransaction,
+    slot: usize,
     idx: usize,
-    _p: PhantomData<(K, V)>,
+    _p: PhantomData<(&'txn WriteTransaction, K, V)>,
 }
 
 impl<K: Key + 'static, V: Value + 'static> Debug for Table<'_, K, V> {
@@ -684,7 +760,7 @@ impl<K: Key + 'static, V: Value + 'static> Debug for Table<'_, K, V> {
 
 impl<K: Key + 'static, V: Value + 'static> Drop for Table<'_, K, V> {
     fn drop(&mut self) {
-        self.txn.open.get()[self.idx] = false;
+        open_flags(self.slot)[self.idx] = false;
     }
 }
 
@@ -696,8 +772,8 @@ impl<K: Key + 'static, V: Value + 'static> TableHandle for Table<'_, K, V> {
 
 impl<'txn, K: Key + 'static, V: Value + 'static> Table<'txn, K, V> {
     #[allow(clippy::mut_from_ref)]
-    fn data(&self) -> &mut TableData {
-        &mut self.txn.state.get().tables[self.idx]
+    fn data(&self) -> &'static mut TableData {
+        &mut st(self.slot).tables[self.idx]
     }
 
     pub fn insert<'k, 'v>(
@@ -852,7 +928,7 @@ impl<'a, K: Key + 'static, V: Value + 'static, F: for<'f> FnMut(K::SelfType<'f>,
 }
 
 pub struct ReadOnlyTable<K: Key + 'static, V: Value + 'static> {
-    snap: Arc<Shared<State>>,
+    slot: usize,
     idx: usize,
     _p: PhantomData<(K, V)>,
 }
@@ -864,8 +940,8 @@ impl<K: Key + 'static, V: Value + 'static> Debug for ReadOnlyTable<K, V> {
 }
 
 impl<K: Key + 'static, V: Value + 'static> ReadOnlyTable<K, V> {
-    fn data(&self) -> &TableData {
-        &self.snap.get().tables[self.idx]
+    fn data(&self) -> &'static TableData {
+        &st(self.slot).tables[self.idx]
     }
     pub fn get<'a>(&self, key: impl Borrow<K::SelfType<'a>>) -> Result<Option<AccessGuard<'static, V>>> {
         let kb = K::as_bytes(key.borrow());
@@ -1013,14 +1089,14 @@ pub trait ReadableMultimapTable<K: Key + 'static, V: Key + 'static>: ReadableTab
 }
 
 pub struct MultimapTable<'txn, K: Key + 'static, V: Key + 'static> {
-    txn: &'txn WriteTransaction,
+    slot: usize,
     idx: usize,
-    _p: PhantomData<(K, V)>,
+    _p: PhantomData<(&'txn WriteTransaction, K, V)>,
 }
 
 impl<K: Key + 'static, V: Key + 'static> Drop for MultimapTable<'_, K, V> {
     fn drop(&mut self) {
-        self.txn.open.get()[self.idx] = false;
+        open_flags(self.slot)[self.idx] = false;
     }
 }
 
@@ -1032,8 +1108,8 @@ impl<K: Key + 'static, V: Key + 'static> MultimapTableHandle for MultimapTable<'
 
 impl<'txn, K: Key + 'static, V: Key + 'static> MultimapTable<'txn, K, V> {
     #[allow(clippy::mut_from_ref)]
-    fn data(&self) -> &mut TableData {
-        &mut self.txn.state.get().tables[self.idx]
+    fn data(&self) -> &'static mut TableData {
+        &mut st(self.slot).tables[self.idx]
     }
 
     /// Returns `true` if the key-value pair was present
@@ -1102,14 +1178,14 @@ impl<K: Key + 'static, V: Key + 'static> ReadableMultimapTable<K, V> for Multima
 }
 
 pub struct ReadOnlyMultimapTable<K: Key + 'static, V: Key + 'static> {
-    snap: Arc<Shared<State>>,
+    slot: usize,
     idx: usize,
     _p: PhantomData<(K, V)>,
 }
 
 impl<K: Key + 'static, V: Key + 'static> ReadOnlyMultimapTable<K, V> {
-    fn data(&self) -> &TableData {
-        &self.snap.get().tables[self.idx]
+    fn data(&self) -> &'static TableData {
+        &st(self.slot).tables[self.idx]
     }
     pub fn get<'a>(&self, key: impl Borrow<K::SelfType<'a>>) -> Result<MultimapValue<'static, V>> {
         let kb = K::as_bytes(key.borrow());
